@@ -1,6 +1,8 @@
 package props
 
 import (
+	"github.com/form3tech-oss/f1/v2/internal/trigger/api"
+	"github.com/spf13/pflag"
 	"fmt"
 	"math"
 	"math/big"
@@ -338,6 +340,31 @@ func c10Ramp(c *core.Case, o *core.Outcome) {
 			o.Violate("ramp-unit:"+sa, "ramp %s: tick interval %v, want %v", sa, rates.IterationDuration, unit)
 			return
 		}
+		rateFn := rates.Rate
+		viaBuilder := ""
+		if r.IntN(4) == 0 {
+			// the same ramp through the command's builder, next to a --max-duration that is shorter, equal or longer:
+			// the run stops early or late, the ramp stays the configured segment
+			md := []time.Duration{dur / 3, dur, dur * 2, time.Second}[r.IntN(4)]
+			if md <= 0 {
+				md = time.Second
+			}
+			b := ramp.Rate()
+			fs := pflag.NewFlagSet("run ramp", pflag.ContinueOnError)
+			fs.DurationP("max-duration", "d", time.Second, "")
+			fs.AddFlagSet(b.Flags)
+			perr := fs.Parse([]string{"--start-rate", sa, "--end-rate", ea, "--ramp-duration", dur.String(), "--max-duration", md.String(), "--distribution", "none"})
+			var trig *api.Trigger
+			if perr == nil {
+				trig, perr = b.New(fs)
+			}
+			if perr != nil || trig == nil || trig.DryRun == nil {
+				o.Violate("ramp-builder:"+sa+">"+ea, "valid ramp %s -> %s over %v (max-duration %v) rejected by the command's builder: %v", sa, ea, dur, md, perr)
+				return
+			}
+			rateFn = trig.DryRun
+			viaBuilder = fmt.Sprintf(" via the run command's flags with --max-duration %v", md)
+		}
 		base := time.Date(2024, 5, 1+r.IntN(20), r.IntN(24), r.IntN(60), r.IntN(60), r.IntN(1e9), time.UTC)
 		offs := []time.Duration{0}
 		for q := 2 + r.IntN(10); q > 0; q-- {
@@ -345,11 +372,11 @@ func c10Ramp(c *core.Case, o *core.Outcome) {
 		}
 		offs = append(offs, dur-1, dur+1, dur+2, dur+3, dur+time.Duration(1+r.Int64N(int64(time.Hour))))
 		sortDurations(offs)
-		key := fmt.Sprintf("%s>%s/%v", sa, ea, dur)
+		key := fmt.Sprintf("%s>%s/%v%s", sa, ea, dur, viaBuilder)
 		last := 0
 		nontrivial := false
 		for qi, off := range offs {
-			v := rates.Rate(base.Add(off))
+			v := rateFn(base.Add(off))
 			o.Events++
 			if off > dur {
 				if v != 0 {
